@@ -485,7 +485,12 @@ func (c *Ctx) applyMath(name string, x *smt.Term) *smt.Term {
 		}
 		if x.Sort.K == smt.KFP64 {
 			ax = append(ax, st.Implies(st.FPLe(fc(-700), x), st.FPLe(fc(1e-305), r)), st.Implies(st.FPLe(x, fc(700)), st.FPLe(r, fc(1.1e304))))
+			// saturation far outside the representable range
+			ax = append(ax, st.Implies(st.FPLe(x, fc(-800)), st.Eq(r, zero)), st.Implies(st.FPLe(fc(720), x), st.Eq(r, pinf)))
+		} else {
+			ax = append(ax, st.Implies(st.FPLe(x, fc(-120)), st.Eq(r, zero)), st.Implies(st.FPLe(fc(100), x), st.Eq(r, pinf)))
 		}
+		c.E.Assumptions["exp saturates: float32 x<=-120 => +0, x>=100 => +Inf; float64 x<=-800 => +0, x>=720 => +Inf (assumed of Go's routines)"] = true
 		c.E.Assumptions["exp/math32.Exp bracketing: x>=-1 => exp>=0.25, x>=-16 => exp>=1e-7, x>=-80 => exp>=1e-35, x<=1 => exp<=3, x<=16 => exp<=1e7, x<=80 => exp<=1e35 (float64 also +-700)"] = true
 		c.E.Assumptions["exp/math32.Exp: NaN iff NaN, exp(+Inf)=+Inf, exp(-Inf)=+0, exp(x)>=0, x<=0 => exp(x)<=1, x>=0 => exp(x)>=1 (assumed of Go's routines)"] = true
 	case "tanh":
